@@ -52,7 +52,7 @@ def run(run):
     C.build_driver()
     h, d = C.Harness(), C.Driver()
     rng = run.rng
-    quick = run.tier == "quick"
+    quick = run.depth == "quick"
     stats = collections.Counter()
     mism = []
     proj = E.small_project(rng, h, nfiles=1, extra={"src/Nasty.java": NASTY})
@@ -102,6 +102,12 @@ def run(run):
                 for f in (jf, tf):
                     if os.path.exists(f):
                         os.remove(f)
+                if stats["cli_runs"] % 12 >= 6:
+                    # the output file already exists and holds a longer, older report (re-running into the same path)
+                    stale = json.dumps({"result_set": [{"file": "/old/Stale.java", "line": 7, "code": "stale " * 40}] * 60, "output": [["stale"]] * 60})
+                    open(jf, "w").write(stale)
+                    open(tf, "w").write("\tFile: /old/Stale.java, Line: 7 \n\tResult: stale \n\n\t\t 7 | stale\n" * 300)
+                    stats["runs_into_existing_longer_file"] += 1
                 rc, so, se = C.cli(base + args, timeout=120)
                 content = None
                 if name == "json-file" and os.path.exists(jf):
